@@ -13,7 +13,7 @@ import sp_common as spc
 import sp_history
 import tlc
 
-KINDS = ('digest', 'sigvalue', 'wrongkey')
+KINDS = ('digest', 'sigvalue', 'wrongkey', 'emptyvalue')     # concretisations of an "invalid" signature
 
 
 def build(scn, kind_resp, kind_assert, alg):
@@ -36,6 +36,8 @@ def build(scn, kind_resp, kind_assert, alg):
             doc = sb.tamper_text(doc, 'val-a1-given', 'val-a1-GIVEN')
         elif scn['assertSig'] == 'invalid' and kind_assert == 'sigvalue':
             doc = sb.tamper_sigvalue(doc, 0)
+        elif scn['assertSig'] == 'invalid' and kind_assert == 'emptyvalue':
+            doc = sb.empty_sigvalue(doc, 0)
     if scn['enc']:
         doc = sb.encrypt_element(doc, sb.xp('Response', 'EncryptedAssertion', 'Assertion'), 'kSpEnc1')
     if scn['respSig'] != 'absent':
@@ -46,6 +48,8 @@ def build(scn, kind_resp, kind_assert, alg):
                 '</samlp:Status>', '<samlp:StatusMessage>edited</samlp:StatusMessage></samlp:Status>', 1)
         elif scn['respSig'] == 'invalid' and kind_resp == 'sigvalue':
             doc = sb.tamper_sigvalue(doc, 0)
+        elif scn['respSig'] == 'invalid' and kind_resp == 'emptyvalue':
+            doc = sb.empty_sigvalue(doc, 0)
     return doc
 
 
@@ -74,9 +78,13 @@ def main():
             combos = [(kr, ka, alg) for kr in KINDS for ka in KINDS for alg in sorted(sb.SIGALG)
                       if (c['scn']['respSig'] == 'invalid' or kr == 'digest') and (c['scn']['assertSig'] == 'invalid' or ka == 'digest')]
         else:
-            combos = [(KINDS[(k + chk.seed) % 3], KINDS[(k // 3 + chk.seed) % 3], sorted(sb.SIGALG)[(k + chk.seed) % 5])]
-            if c['scn']['respSig'] == 'invalid' or c['scn']['assertSig'] == 'invalid':
-                combos.append((KINDS[(k + 1 + chk.seed) % 3], KINDS[(k // 3 + 1 + chk.seed) % 3], 'sha256'))
+            combos = [(KINDS[(k + chk.seed) % 4], KINDS[(k // 4 + chk.seed) % 4], sorted(sb.SIGALG)[(k + chk.seed) % 5])]
+            # every way of being invalid, for each signature that is
+            if c['scn']['respSig'] == 'invalid':
+                combos += [(kr, 'digest', 'sha256') for kr in KINDS]
+            if c['scn']['assertSig'] == 'invalid':
+                combos += [('digest', ka, 'sha256') for ka in KINDS]
+            combos = sorted(set(combos))
         for kr, ka, alg in combos:
             j = dict(c)
             j.update(kind_resp=kr, kind_assert=ka, alg=alg)
